@@ -4,7 +4,12 @@ C12 — the vectorised multi-agent PettingZoo environment equals N independent e
 Correspondence: the real `AsyncPettingZooVecEnv` (real worker processes, the start method the class
 chooses) over the scripted counting environments of `harness/envs.py` — per-environment episode
 lengths, so automatic resets interleave; termination-only / truncation-only / mixed endings; agents
-leaving early; vector / image / dict / tuple observations with many dtypes; discrete and continuous
+leaving early (the same agents in every episode, or per-episode leave vectors: the ORDER in which the agents
+finish differs from episode to episode); environments that prune and finally empty `env.agents`, environments that
+keep the whole team listed until reset() and signal the end of an episode through the termination / truncation flags
+only, environments that drop early leavers but keep the last finishers listed (`agents_attr`); explicit reset() calls
+at arbitrary points INSIDE episodes (some agents of a sub-environment already finished, others not; every
+sub-environment at another point of its episode); vector / image / dict / tuple observations with many dtypes; discrete and continuous
 actions; copy and no-copy modes; seeds; action dicts whose keys are inserted in another order than
 possible_agents (reversed, or re-shuffled at every step, with pairwise different per-agent actions);
 per-environment step delays that script the completion order of the workers (lower indices slower,
@@ -25,7 +30,10 @@ input and the environments' action logs are all keyed by agent id.
 * model: `Model/VecEnv.lean` is driven with the same scripts and action codes and its canonical output
   (provenance text of every field at every position) is diffed with the implementation's.
 
-The single-environment `PettingZooAutoResetParallelWrapper` is checked the same way in-process.
+The single-environment `PettingZooAutoResetParallelWrapper` is checked the same way in-process, over the same
+environment scripts (leave vectors, `agents_attr` conventions, explicit resets inside episodes): every dict it returns
+is compared with what the same environment stepped alone under the auto-reset rule returns (same agents, observation
+value / dtype / shape, reward, flags, info), plus the provenance oracle and the model's `w*` ops.
 
 Source translation (`pre_gate`, before the Lean gate): `py2lean_vecenv.py` translates, from the source text of the tree
 under test, the wrapper's `reset` / `step`, `PettingZooVecEnv.step` (de-batching, per-agent int conversion),
@@ -96,6 +104,55 @@ def gen_obs_spec(rng, kind):
     return {"kind": kind, "parts": [gen_part(rng, k, rng.random() < 0.4) for k in keys]}
 
 
+def gen_leaves(rng, n_agents: int) -> list:
+    """2-3 per-episode leave vectors (cycled by episode) in which the agents finish in DIFFERENT orders: the
+    agents that leave early in the first vector stay to the end in the second one and the other way round"""
+    first = set(rng.sample(range(n_agents), rng.randint(1, n_agents - 1)))
+    rest = [a for a in range(n_agents) if a not in first]
+    second = set(rng.sample(rest, rng.randint(1, len(rest))))
+    vecs = [[rng.randint(1, 3) if a in grp else 0 for a in range(n_agents)] for grp in (first, second)]
+    if rng.random() < 0.4:
+        vecs.append([rng.choice([0, 0, 1, 2, 3]) for _ in range(n_agents)])
+        if all(vecs[-1]):
+            vecs[-1][rng.randrange(n_agents)] = 0
+    if rng.random() < 0.5:
+        rng.shuffle(vecs)
+    return vecs
+
+
+def gen_env_script(rng, n_agents: int, max_len: int) -> dict:
+    """one sub-environment's script: episode lengths and endings (cycled), who leaves when (the same in every
+    episode, or per-episode vectors with different finishing orders), what it does with its `agents` attribute"""
+    lens = [rng.randint(1, max_len) for _ in range(rng.randint(1, 3))]
+    leave = [0] * n_agents
+    e = {}
+    r = rng.random()
+    if n_agents > 1 and r < 0.3:
+        for a in rng.sample(range(n_agents), rng.randint(1, n_agents - 1)):
+            leave[a] = rng.randint(1, 3)
+    elif n_agents > 1 and r < 0.6:
+        e["leaves"] = gen_leaves(rng, n_agents)
+        lens = [rng.randint(2, max(3, max_len)) for _ in lens]       # long enough for somebody to leave early
+    e.update({"lens": lens, "leave": leave, "rev_dicts": rng.random() < 0.2,
+              "agents_attr": rng.choice(scripted.AGENTS_ATTR)})
+    return e
+
+
+def gen_ops(rng, act, n_envs, key_order, n_seq, n_steps) -> list:
+    """reset(seed) | step op sequences.  Besides the resets that open each of the `n_seq` sequences, explicit resets
+    are inserted at arbitrary points INSIDE the sequences (per case rate 0 / 0.1 / 0.25 per step): the sub-environments
+    are then in the middle of different episodes, some of their agents already finished, others not"""
+    p_reset = rng.choice([0.0, 0.1, 0.1, 0.25])
+    ops = []
+    for _ in range(n_seq):
+        ops.append(["reset", rng.choice([None, rng.randrange(0, 1000), rng.randrange(0, 50)])])
+        for _ in range(n_steps()):
+            if ops[-1][0] == "step" and rng.random() < p_reset:
+                ops.append(["reset", rng.choice([None, None, rng.randrange(0, 1000)])])
+            ops.append(gen_step(rng, act, n_envs, key_order))
+    return ops
+
+
 def gen_case(rng, tier: str) -> dict:
     n_envs = rng.choice([1, 2, 2, 3, 3, 4, 5])
     n_agents = rng.choice([1, 2, 2, 3])
@@ -105,13 +162,9 @@ def gen_case(rng, tier: str) -> dict:
     act = [rng.choice([0, 0, 0, 1, 2, 3, -1]) for _ in agents]
     env_cfgs = []
     for _ in range(n_envs):
-        lens = [rng.randint(1, 5) for _ in range(rng.randint(1, 3))]
-        kinds = [rng.choice(scripted.KINDS) for _ in range(rng.randint(1, 2))]
-        leave = [0] * n_agents
-        if n_agents > 1 and rng.random() < 0.35:
-            for a in rng.sample(range(n_agents), rng.randint(1, n_agents - 1)):
-                leave[a] = rng.randint(1, 3)
-        env_cfgs.append({"lens": lens, "kinds": kinds, "leave": leave, "rev_dicts": rng.random() < 0.2})
+        e = gen_env_script(rng, n_agents, 5)
+        e["kinds"] = [rng.choice(scripted.KINDS) for _ in range(rng.randint(1, 2))]
+        env_cfgs.append(e)
     # memory layout of the observations the environments hand out (same values, non-contiguous views)
     if rng.random() < 0.55:
         lay = rng.choice(scripted.LAYOUTS[1:])
@@ -121,15 +174,12 @@ def gen_case(rng, tier: str) -> dict:
     share = 0.5 if tier == "quick" else 0.35
     mode = rng.choice(["reversed", "reversed", "forward", "random"]) if (n_envs > 1 and rng.random() < share) else "none"
     script_delays(rng, env_cfgs, mode, rng.choice([3, 5, 8, 12]))
-    ops = []
     n_seq = rng.randint(1, 2) if tier == "quick" else rng.randint(2, 4)
     # the action dict is keyed by agent id: in a good share of the cases its keys are inserted in another
     # order than possible_agents (fixed reversed order, or re-shuffled at every step)
     key_order = rng.choice(["agents", "reversed", "shuffled", "shuffled"]) if n_agents > 1 else "agents"
-    for _ in range(n_seq):
-        ops.append(["reset", rng.choice([None, rng.randrange(0, 1000), rng.randrange(0, 50)])])
-        for _ in range(rng.randint(4, 12) if tier == "quick" else rng.randint(6, 30)):
-            ops.append(gen_step(rng, act, n_envs, key_order))
+    ops = gen_ops(rng, act, n_envs, key_order, n_seq,
+                  (lambda: rng.randint(4, 12)) if tier == "quick" else (lambda: rng.randint(6, 30)))
     return {"n_envs": n_envs, "agents": agents, "obs": obs, "act": act, "envs": env_cfgs,
             "copy": rng.random() < 0.6, "container": rng.choice(["array", "array", "list"]),
             "context": None, "ops": ops, "case_seed": rng.randrange(1 << 30), "completion": mode}
@@ -166,6 +216,7 @@ def gen_step(rng, act, n_envs, key_order="agents"):
 def env_cfgs(case, delays=True) -> list[dict]:
     """`delays=False`: the sequential reference does not need to sleep"""
     return [{"env_id": i, "agents": case["agents"], "lens": e["lens"], "kinds": e["kinds"], "leave": e["leave"],
+             "leaves": e.get("leaves") or [], "agents_attr": e.get("agents_attr", "prune"),
              "obs": case["obs"], "act": case["act"], "rev_dicts": e.get("rev_dicts", False),
              "layout": e.get("layout", "c"), "delay_ms": e.get("delay_ms", 0) if delays else 0}
             for i, e in enumerate(case["envs"])]
@@ -427,8 +478,10 @@ def impl_line(case, rec) -> str:
 
 
 def script_words(case, e, env_id) -> str:
+    """`leave_0 … leave_{A-1}`, or all per-episode leave vectors one after the other (Model/VecEnv.lean parseScript?)"""
+    vecs = e.get("leaves") or [e["leave"]]
     return (f"{env_id} {len(e['lens'])} " + " ".join(map(str, e["lens"])) + f" {len(e['kinds'])} "
-            + " ".join(e["kinds"]) + " " + " ".join(map(str, e["leave"])))
+            + " ".join(e["kinds"]) + " " + " ".join(str(x) for v in vecs for x in v))
 
 
 def sizes_lines(case) -> list[str]:
@@ -633,15 +686,9 @@ def gen_wrapper_case(rng) -> dict:
     kind = rng.choice(["vector", "vector", "dict", "tuple", "image"])
     obs = [gen_obs_spec(rng, kind) for _ in agents]
     act = [rng.choice([0, 0, 1, 2]) for _ in agents]
-    leave = [0] * n_agents
-    if n_agents > 1 and rng.random() < 0.3:
-        for a in rng.sample(range(n_agents), rng.randint(1, n_agents - 1)):
-            leave[a] = rng.randint(1, 3)
-    env = {"lens": [rng.randint(1, 4) for _ in range(rng.randint(1, 3))],
-           "kinds": [rng.choice(scripted.KINDS) for _ in range(rng.randint(1, 3))],
-           "leave": leave, "rev_dicts": rng.random() < 0.2}
-    ops = [["reset", rng.choice([None, rng.randrange(1000)])]]
-    ops += [["step", gen_actions(rng, act, 1)] for _ in range(rng.randint(3, 14))]
+    env = gen_env_script(rng, n_agents, 4)
+    env["kinds"] = [rng.choice(scripted.KINDS) for _ in range(rng.randint(1, 3))]
+    ops = gen_ops(rng, act, 1, "agents", rng.choice([1, 1, 2]), lambda: rng.randint(3, 14))
     return {"n_envs": 1, "agents": agents, "obs": obs, "act": act, "envs": [env], "ops": ops}
 
 
@@ -663,11 +710,40 @@ def wrap_line(case, obs, info, rew, term, trunc) -> str:
     return " ; ".join(out)
 
 
+def wrapper_vs_reference(case, j, got, want) -> str | None:
+    """the dicts the wrapper returned at op j against what the same environment, stepped alone under the auto-reset
+    rule, returns: the same agents, the same observation (value, dtype, shape), reward, flags and info"""
+    names = ("observation", "reward", "termination", "truncation", "info") if len(got) == 5 else ("observation", "info")
+    for name, g, w in zip(names, got, want):
+        if not isinstance(g, dict) or set(g) != set(w):
+            return (f"wrapper op {j}: the {name} dict has the agents {sorted(g) if isinstance(g, dict) else type(g).__name__}, "
+                    f"the environment alone (restarted iff every agent is terminated or truncated) returns {sorted(w)}")
+        for a, ag in enumerate(case["agents"]):
+            if ag not in w:
+                continue
+            if name == "observation":
+                parts = case["obs"][a]["parts"]
+                ga, wa = obs_parts(case, a, g[ag]), obs_parts(case, a, w[ag])
+                for k, (x, y) in enumerate(zip(ga, wa)):
+                    if not same_value(x, y):
+                        return (f"wrapper op {j}: observation {ag}/{parts[k][0]} is {show_chunk(x, parts[k][1], parts[k][2])} "
+                                f"({x.dtype}{list(x.shape)}), the environment alone (restarted iff every agent is terminated "
+                                f"or truncated) returns {show_chunk(y, parts[k][1], parts[k][2])} (e.p.t.a.k.salt)")
+            elif name == "info":
+                if set(g[ag]) != set(w[ag]) or any(not same_value(g[ag][x], w[ag][x]) for x in w[ag]):
+                    return (f"wrapper op {j}: info of {ag} is {show_info(g[ag])}, the environment alone (restarted iff "
+                            f"every agent is terminated or truncated) returns {show_info(w[ag])}")
+            elif type(g[ag]) is not type(w[ag]) or g[ag] != w[ag]:
+                return f"wrapper op {j}: {name} of {ag} is {g[ag]!r}, the environment alone returns {w[ag]!r}"
+    return None
+
+
 def eval_wrapper(chk: Check, case, ops):
     from agilerl.wrappers.pettingzoo_wrappers import PettingZooAutoResetParallelWrapper
     cfg = env_cfgs(case)[0]
     env = scripted.ScriptedParallelEnv(cfg)
     w = PettingZooAutoResetParallelWrapper(env)
+    ref = scripted.ScriptedParallelEnv(cfg)          # the same environment stepped alone: the specification
     impl, problems, tags = [], [], []
     ags = case["agents"]
     ep, st = 0, 0
@@ -677,11 +753,16 @@ def eval_wrapper(chk: Check, case, ops):
                 obs, info = w.reset(seed=op[1])
                 impl.append(wrap_line(case, obs, info, None, None, None))
                 ep, st, want_reset = ep + 1, 0, False
+                ref_bad = wrapper_vs_reference(case, j, (obs, info), ref.reset(seed=op[1]))
             else:
                 a_i = {ag: (int(col[0]) if k == 0 else np.array(col[0], dtype=np.float32))
                        for ag, k, col in zip(ags, case["act"], op[1])}
                 obs, rew, term, trunc, info = w.step(a_i)
                 impl.append(wrap_line(case, obs, info, rew, term, trunc))
+                r_obs, r_rew, r_term, r_trunc, r_info = ref.step(dict(a_i))
+                if all(r_term[ag] or r_trunc[ag] for ag in r_term):
+                    r_obs, r_info = ref.reset()
+                ref_bad = wrapper_vs_reference(case, j, (obs, rew, term, trunc, info), (r_obs, r_rew, r_term, r_trunc, r_info))
                 want_reset = all(bool(term[ag]) or bool(trunc[ag]) for ag in term)
                 if want_reset:
                     ep, st = ep + 1, 0
@@ -709,6 +790,8 @@ def eval_wrapper(chk: Check, case, ops):
                     problems.append(f"wrapper op {j}: {ag} is shown (env, episode, step) = {bad[0]}, "
                                     f"expected {bad[1]}: {what}")
                     break
+            if ref_bad and not problems:
+                problems.append(ref_bad)
             if problems:
                 break
     except Exception as e:  # noqa: BLE001
@@ -1111,8 +1194,13 @@ def case_tags(case) -> list[str]:
     t += sorted({f"dtype-{p[2]}" for s in case["obs"] for p in s["parts"]})
     t += sorted({"act-discrete" if k == 0 else "act-continuous" if k > 0 else "act-continuous-scalar" for k in case["act"]})
     t += sorted({f"end-{k}" for e in case["envs"] for k in e["kinds"]})
-    if any(any(e["leave"]) for e in case["envs"]):
+    if any(any(e["leave"]) or e.get("leaves") for e in case["envs"]):
         t.append("agents-leave-early")
+    if any(e.get("leaves") for e in case["envs"]):
+        t.append("finishing-order-differs-between-episodes")
+    t += sorted({f"agents-attr-{e.get('agents_attr', 'prune')}" for e in case["envs"]})
+    if any(a[0] == "step" and b[0] == "reset" for a, b in zip(case["ops"], case["ops"][1:])):
+        t.append("explicit-reset-inside-sequence")
     if len({tuple(e["lens"]) for e in case["envs"]}) > 1:
         t.append("episode-lengths-differ")
     if any(e.get("rev_dicts") for e in case["envs"]):
@@ -1137,10 +1225,15 @@ def run(chk: Check) -> None:
     chk.rule = ("vec suite: AsyncPettingZooVecEnv with real worker processes over scripted environments "
                 "(1-5 envs, 1-3 agents, vector/image/dict/tuple observations over ten dtypes, discrete and "
                 "continuous actions, per-env episode lengths 1-5 cycling per episode, term/trunc/mixed/both "
-                "endings, agents leaving early, copy and no-copy, seeds, action-dict key order = / reversed / "
+                "endings, agents leaving early — the same agents in every episode, or per-episode leave vectors so that "
+                "the agents finish in a different order from episode to episode —, environments that prune / empty "
+                "`env.agents` and environments that keep the team listed and signal the end through the flags only, "
+                "explicit reset() calls at arbitrary points inside episodes, copy and no-copy, seeds, "
+                "action-dict key order = / reversed / "
                 "shuffled per step, scripted worker completion orders through per-env step delays, observations "
                 "as non-contiguous views) driven by reset/step op sequences; "
-                "wrapper suite: PettingZooAutoResetParallelWrapper over the same environments in-process; "
+                "wrapper suite: PettingZooAutoResetParallelWrapper over the same environments in-process, compared "
+                "dict by dict with the environment stepped alone under the auto-reset rule; "
                 "distinct = distinct (configuration, op list); non-trivial = at least one automatic reset happened")
     chk.assumptions = [
         "numpy reshape of a row is the inverse of flatten() (modelled as identity on flat chunks)",
@@ -1166,7 +1259,11 @@ def run(chk: Check) -> None:
         chk.case(["wrapper", case], nontrivial="auto-reset" in res["tags"],
                  sample={"suite": "wrapper", "env": case["envs"][0], "obs": case["obs"][0]["kind"],
                          "ops": len(case["ops"])},
-                 tags=["suite-wrapper"] + sorted(set(res["tags"])) + [f"wrapper-end-{k}" for k in set(case["envs"][0]["kinds"])])
+                 tags=["suite-wrapper"] + sorted(set(res["tags"])) + [f"wrapper-end-{k}" for k in set(case["envs"][0]["kinds"])]
+                 + [f"wrapper-agents-attr-{case['envs'][0].get('agents_attr', 'prune')}"]
+                 + (["wrapper-finishing-order-differs"] if case["envs"][0].get("leaves") else [])
+                 + (["wrapper-explicit-reset-inside-sequence"]
+                    if any(a[0] == "step" and b[0] == "reset" for a, b in zip(case["ops"], case["ops"][1:])) else []))
         if res["problems"] or res["diff"] is not None:
             wdiff += res["diff"] is not None
             if wviol < 2:
@@ -1238,13 +1335,39 @@ SELFTEST_WRAPPER = {
 }
 
 
-def _faulty_worker_factory(m):
-    """the worker with the transition captured before the auto-reset (the defect repaired by
-    fixes/C12-autoreset-first-obs.diff), re-seeded"""
+# class (a): explicit resets inside episodes after some agents finished, then another finishing order
+SELFTEST_CASE_RESETS = {
+    "n_envs": 2, "agents": ["agent_0", "agent_1"],
+    "obs": [{"kind": "vector", "parts": [["o", [7], "float32"]]},
+            {"kind": "dict", "parts": [["pos", [3], "int16"], ["img", [2, 2, 2], "uint8"]]}],
+    "act": [0, 0],
+    "envs": [{"lens": [4], "kinds": ["trunc"], "leave": [0, 0], "leaves": [[1, 0], [0, 1]], "rev_dicts": False,
+              "agents_attr": "prune"},
+             {"lens": [5, 4], "kinds": ["term"], "leave": [0, 0], "leaves": [[0, 2], [2, 0]], "rev_dicts": False,
+              "agents_attr": "fixed"}],
+    "copy": True, "container": "array", "context": None, "case_seed": 9, "completion": "none",
+    "ops": ([["reset", 3]] + [["step", [[s % 5, (s + 1) % 5], [(s + 2) % 5, s % 5]]] for s in range(3)]
+            + [["reset", None]] + [["step", [[(s + 1) % 5, s % 5], [s % 5, (s + 3) % 5]]] for s in range(6)]),
+}
+# class (b): the team stays listed in `env.agents`, the end is signalled through the flags only
+SELFTEST_WRAPPER_LISTED = {
+    "n_envs": 1, "agents": ["agent_0", "agent_1"],
+    "obs": [{"kind": "vector", "parts": [["o", [7], "float32"]]}] * 2, "act": [0, 1],
+    "envs": [{"lens": [2, 3], "kinds": ["trunc", "term", "mixed"], "leave": [0, 0], "leaves": [[0, 0], [1, 0]],
+              "rev_dicts": False, "agents_attr": "fixed"}],
+    "ops": [["reset", None]] + [["step", [[1], [[0.5]]]] for _ in range(7)],
+}
+
+
+def _faulty_worker_factory(m, fault="terminal-observation"):
+    """`terminal-observation`: the worker with the transition captured before the auto-reset (the defect repaired by
+    fixes/C12-autoreset-first-obs.diff), re-seeded; `stale-finished-set`: the end of an episode decided on the agents
+    finished SO FAR, remembered across an explicit reset command"""
     def worker(index, env_fn, pipe, parent_pipe, shared_memory, error_queue, agents):
         env = env_fn()
         space = {agent: env.observation_space(agent) for agent in agents}
         parent_pipe.close()
+        finished = set()
         try:
             while True:
                 command, data = pipe.recv()
@@ -1255,6 +1378,17 @@ def _faulty_worker_factory(m):
                 elif command == "step":
                     acts = {ag: (np.array(data[i]).squeeze() if not isinstance(data[i], int) else data[i])
                             for i, ag in enumerate(agents)}
+                    if fault == "stale-finished-set":
+                        o, r, te, tu, inf = env.step(acts)
+                        finished.update(a for a in te if te[a] or tu[a])
+                        if finished.issuperset(te.keys()):
+                            o, inf = env.reset()
+                            finished.clear()             # … but not in the "reset" branch above
+                        obs, rew, term, trunc, info = m.process_transition(
+                            (o, r, te, tu, inf), space, ["observation", "reward", "terminated", "truncated", "info"], agents)
+                        m.write_to_shared_memory(index, obs, shared_memory, space)
+                        pipe.send(((rew, term, trunc, info), True))
+                        continue
                     tr = m.process_transition(env.step(acts), space,
                                               ["observation", "reward", "terminated", "truncated", "info"], agents)
                     obs, rew, term, trunc, info = tr
@@ -1292,10 +1426,10 @@ def selftest(chk: Check) -> None:
         return
     caught = []
 
-    def expect(label):
-        r = eval_case(chk, SELFTEST_CASE, SELFTEST_CASE["ops"])
-        if not r["problems"] and r["diff"] is None:
-            raise InfraError(f"C12 self-test: seeded fault not noticed: {label}")
+    def expect(label, case=SELFTEST_CASE, oracle=False):
+        r = eval_case(chk, case, case["ops"])
+        if not r["problems"] and (oracle or r["diff"] is None):
+            raise InfraError(f"C12 self-test: seeded fault not noticed{' by the oracles' if oracle else ''}: {label}")
         caught.append(label)
 
     # 1. action transposition swapped between environments
@@ -1355,6 +1489,19 @@ def selftest(chk: Check) -> None:
     m._async_worker = _faulty_worker_factory(m)
     try:
         expect("worker drops the first observation of the new episode")
+    finally:
+        m._async_worker = orig_worker
+    # 4b. class "explicit reset inside an episode, then another finishing order": the worker remembers who finished
+    #     across a reset command (must be noticed by the oracles themselves, with a concrete input)
+    base_r = eval_case(chk, SELFTEST_CASE_RESETS, SELFTEST_CASE_RESETS["ops"])
+    if base_r["problems"] or base_r["diff"] is not None:
+        raise InfraError(f"C12 self-test: the explicit-reset case fails on the unchanged tree: {base_r['problems'][:1]}")
+    m._async_worker = _faulty_worker_factory(m, "stale-finished-set")
+    try:
+        expect("worker remembers the agents that finished before an explicit reset", SELFTEST_CASE_RESETS, oracle=True)
+        r0 = eval_case(chk, SELFTEST_CASE, SELFTEST_CASE["ops"])
+        if r0["problems"] or r0["diff"] is not None:
+            raise InfraError("C12 self-test: the stale-finished-set worker must be invisible without a reset inside an episode")
     finally:
         m._async_worker = orig_worker
     # 5. rewards gathered from the pipes in the wrong order
@@ -1432,6 +1579,26 @@ def selftest(chk: Check) -> None:
             caught.append("wrapper restarts on terminations only")
         finally:
             pw.PettingZooAutoResetParallelWrapper.step = orig_wstep
+    # 7. class "the team stays listed in env.agents": wrapper that restarts when `env.agents` is empty
+    def listed_wstep(self, actions):
+        obs, rewards, terminations, truncations, infos = self.env.step(actions)
+        if not self.env.agents:
+            obs, infos = self.env.reset()
+        return obs, rewards, terminations, truncations, infos
+    wl = eval_wrapper(chk, SELFTEST_WRAPPER_LISTED, SELFTEST_WRAPPER_LISTED["ops"])
+    if wl["problems"] or wl["diff"] is not None:
+        raise InfraError(f"C12 self-test: the team-stays-listed wrapper case fails on the unchanged tree: {wl['problems'][:1]}")
+    pw.PettingZooAutoResetParallelWrapper.step = listed_wstep
+    try:
+        r = eval_wrapper(chk, SELFTEST_WRAPPER_LISTED, SELFTEST_WRAPPER_LISTED["ops"])
+        if not r["problems"]:
+            raise InfraError("C12 self-test: wrapper that restarts on an empty env.agents was not noticed by the oracles")
+        r = eval_wrapper(chk, SELFTEST_WRAPPER, SELFTEST_WRAPPER["ops"])
+        if r["problems"] or r["diff"] is not None:
+            raise InfraError("C12 self-test: on an environment that empties env.agents that wrapper must be invisible")
+        caught.append("wrapper restarts on an empty env.agents instead of on the flags")
+    finally:
+        pw.PettingZooAutoResetParallelWrapper.step = orig_wstep
     chk.notes.append("self-test: detected " + "; ".join(caught))
 
 
